@@ -125,6 +125,15 @@ def body_diffuse(case):
     thr = trig[case["thr_pick"] % k] if case["thr_mode"] == "tie" else (case["thr_value"] if case["thr_mode"] == "value" else 0.5 * (trig[case["thr_pick"] % k] + trig[(case["thr_pick"] + 1) % k]))
     norm = case["norm"]
     wsum = 1.0 / norm
+    # a throw that is refused between the throw and the evaluation (the caller catches the error and carries on with
+    # the batch it has): the columns still describe the accepted batch, so the integrals must still follow from them
+    if case.get("bad"):
+        if gc.bad_throw(g, np.array(u_rows, dtype=np.float64).T.copy(), case["bad"]):
+            require(np.asarray(g.pathLens(), dtype=float).tobytes() == L.tobytes() and np.asarray(g.event_mask, dtype=bool).tobytes() == mask.tobytes(), f"a refused throw ({case['bad']}) changed the stored event columns")
+            labels.add("after_refused_throw")
+        else:  # the input was accepted (out-of-domain numbers are not checked by the stage): throw the batch again
+            with cut("RegionGeom.throw (again)"):
+                g.throw(np.array(u_rows, dtype=np.float64).T.copy())
     snap = [a.tobytes() for a in (trig, pexit)] + ([cos_eff.tobytes()] if np.ndim(cos_eff) else [])
     with cut("RegionGeom.mcintegral"):
         mcint, geo_only, npass, unc = g.mcintegral(trig, cos_eff, pexit, thr, norm, wsum)
@@ -195,12 +204,40 @@ def body_target(case):
 
     from nuspacesim.simulation.geometry.region_geometry import RegionGeomToO
 
+    if case.get("sun_rel") is not None:
+        # generator helper: the Sun limit is placed next to the Sun's altitude at mid-window (where the source is aimed
+        # at the limb), so that the dark-sky decision differs between kept events far more often
+        from astropy.time import TimeDelta
+
+        tm = Time([Time(case["date"], format="isot", scale="utc") + TimeDelta(0.5 * case["T"], format="sec")])
+        with quiet():
+            case = dict(case, sun_cut=float(c13.body_altitude("sun", dict(case, **{"ra": 0, "dec": 0}), tm)[0]) + case["sun_rel"])
     conf = c13._config(case)
     conf.detector.sun_moon.sun_moon_cuts = case["cuts_on"]
     N = case["n"]
+    labels = set()
     with quiet():
         with cut("RegionGeomToO.throw"):
             g = RegionGeomToO(conf)
+            sib = case.get("sibling")
+            if sib and N >= 4:
+                # the object has served a SIBLING batch before: the same instants, with those kept events that lie
+                # strictly between the first and the last kept one in another order (same number of kept events, same
+                # first and last kept instant), incl. an optical evaluation - summaries of a batch (length, end
+                # points) do not identify it
+                g.throw(N)
+                keep0 = np.zeros(N, dtype=bool)
+                keep0[np.where(np.asarray(g.horizon_mask))[0][np.asarray(g.volume_mask)]] = True
+                pos = np.where(keep0)[0]
+                if len(pos) >= 4:
+                    t = np.arange(N) / N
+                    inner = pos[1:-1]
+                    src = inner[::-1] if sib == "reverse" else (np.roll(inner, len(inner) // 2) if sib == "roll" else np.concatenate([inner[1::2], inner[0::2]]))
+                    t[inner] = (np.arange(N) / N)[src]
+                    g.throw(t)
+                    ks = len(np.asarray(g.pathLens()))
+                    g.mcintegral(np.ones(ks), np.full(ks, 0.5), np.full(ks, 0.5), 0.5, 1.0, 1.0, lenDec=np.zeros(ks), method="Optical")
+                    labels.add("sibling_batch_first")
             g.throw(N)
     L = np.asarray(g.pathLens(), dtype=float)
     k = len(L)
@@ -214,7 +251,6 @@ def body_target(case):
     thr = trig[case["thr_pick"] % k] if case["thr_mode"] == "tie" else (case["thr_value"] if case["thr_mode"] == "value" else 0.5 * (trig[case["thr_pick"] % k] + trig[(case["thr_pick"] + 1) % k]))
     norm = case["norm"]
     wsum = 1.0 / norm
-    labels = set()
     stored = {}
 
     def store(names, cols):
@@ -405,7 +441,7 @@ arrays = {
 SUBCHECKS = [
     SubCheck(
         "diffuse_arrays",
-        st.fixed_dictionaries({"cfg": gc.geom_config(), "u": gc.points(2, 40), **arrays, "own": st.lists(st.integers(0, 5), min_size=3, max_size=12), "scalar_cos": st.booleans(), "perm": st.lists(st.floats(0, 1), min_size=40, max_size=40)}),
+        st.fixed_dictionaries({"cfg": gc.geom_config(), "u": gc.points(2, 40), "bad": st.sampled_from([None, None] + gc.BAD_THROWS), **arrays, "own": st.lists(st.integers(0, 5), min_size=3, max_size=12), "scalar_cos": st.booleans(), "perm": st.lists(st.floats(0, 1), min_size=40, max_size=40)}),
         body_diffuse,
         lambda labels: bool(labels & {"threshold_and_cone_cuts", "tie"}),
         {"quick": 600, "thorough": 30000},
@@ -421,6 +457,8 @@ SUBCHECKS = [
                 "aim": st.tuples(st.floats(0.05, 0.95), st.floats(0.0, 2 * math.pi)).map(list),
                 "T": st.one_of(st.sampled_from([600.0, 3600.0, 86400.0, 3 * 86400.0]), st.floats(60.0, 7200.0)),
                 "cuts_on": st.booleans(),
+                "sibling": st.sampled_from([None, "reverse", "roll", "interleave"]),
+                "sun_rel": st.one_of(st.none(), st.floats(math.radians(-1.5), math.radians(1.5))),
                 "lenfrac": st.lists(st.one_of(st.floats(0.0, 1.2), st.sampled_from([0.0, 1.0, 2.0, 2.0, 0.999999])), min_size=3, max_size=24),
                 **arrays,
             }
